@@ -24,6 +24,21 @@ type EncodeOpts struct {
 	KeyOnlyEntries bool
 }
 
+// SplitRecords cuts a well-formed wire stream into its records.
+func SplitRecords(u []byte) [][]byte {
+	var out [][]byte
+	for len(u) > 0 {
+		_, _, n := protowire.ConsumeField(u)
+		if n <= 0 {
+			out = append(out, u)
+			break
+		}
+		out = append(out, u[:n])
+		u = u[n:]
+	}
+	return out
+}
+
 func wireType(k protoreflect.Kind) protowire.Type {
 	switch k {
 	case protoreflect.Fixed32Kind, protoreflect.Sfixed32Kind, protoreflect.FloatKind:
@@ -182,6 +197,12 @@ func (o *EncodeOpts) Encode(m protoreflect.Message) []byte {
 	}
 	// unknown records keep their relative order
 	var unk [][]byte
+	if o.T != nil && o.Unknowns && o.T.Chance("splice-unknown", 1, 3) {
+		// additional unknown records at this level (before the value's own ones)
+		for _, r := range SplitRecords(genUnknown(o.T, m.Descriptor())) {
+			unk = append(unk, r)
+		}
+	}
 	u := []byte(m.GetUnknown())
 	for len(u) > 0 {
 		_, _, n := protowire.ConsumeField(u)
